@@ -114,6 +114,13 @@ def strategy():
                              # function calls as one fragment, so that "call directly followed by a field / variable / number / colour" is reachable
                              'foo(1)', 'calc(1)', 'url(a)', 'rotate(1)', 'f()', 'p:', 'm:', 'trf:', 'bg:', '${a}', '$a'])
     g = st.builds(lambda fs, c: {'abbr': ''.join(fs), 'cfg': c}, st.lists(cfrag, max_size=10), cfgs.css_config())
+    # structured stylesheet abbreviations: key, separator, then value atoms of every kind in arbitrary adjacency (number, colour, keyword, function call,
+    # field, variable, string, dash, comma, blank, `!`) — adjacency of two different atom kinds is what the value parser/printer special-cases
+    catom = st.sampled_from(['10', '-5', '.5', '1.5e', '10p', '0', '#fc0', '#f.5', '#t', 'auto', 'a', 'foo(1)', 'calc(1 + 2)', 'url(a)', 'f()', 'rgb(0,0,0)', 'scale(1, 2)',
+                             '${1}', '${1:x}', '${a}', '$a', '"s"', "'t'", '-', '--x', ',', ' ', '!', '@k'])
+    ckey = st.sampled_from(['p', 'm', 'bg', 'trf', 'c', 'bd', 'fz', 'lg', 'pos', 'xx', 'anim', 'trf-s', 'gtc', '@kf', 'us'])
+    cprop = st.builds(lambda k, sp, at: k + sp + ''.join(at), ckey, st.sampled_from([':', ':', '-', '']), st.lists(catom, max_size=5))
+    k = st.builds(lambda ps, c: {'abbr': '+'.join(ps), 'cfg': c}, st.lists(cprop, min_size=1, max_size=3), cfgs.css_config())
     # valid structured abbreviations (G1 model: nested repeaters/groups, counters in every value position, full text and attribute forms),
     # with parent-numbering carets spliced into counters (`$@^`, `$@^^` …) and optionally one character-level mutation
     from vlib import abbr_gen as G, abbr_model as M
@@ -143,7 +150,7 @@ def strategy():
         return {'abbr': cfgs.bound_repeats(t), 'cfg': cfg}
     h = st.builds(splice, G.scripts(p_full), st.lists(st.integers(0, 4), max_size=4),
                   st.one_of(st.none(), st.tuples(st.integers(0, 200), st.sampled_from(A.MARKUP))), cfgs.markup_config())
-    return st.one_of(m, c, f, g, h, h)
+    return st.one_of(m, c, f, g, k, h, h)
 
 
 def shard_hypothesis(ctx, shard, nshards, n):
